@@ -175,13 +175,14 @@ theorem boolop_counterexample : ∃ (e : Expr) (v : Val),
   refine ⟨.and_ (.cons (.int 1) (.cons (.int 2) .nil)), .int 2, by rfl, by decide +kernel, ?_, by decide +kernel⟩
   intro h; cases h
 
-/-- known finding `tuple-slice-nonliteral-bounds`: only literal or omitted bounds select elements (reflections.py:476); `t[-1:]`
-    keeps the whole tuple type. -/
-theorem tuple_slice_negative_counterexample : ∃ (Γ : Env) (ρ : VEnv) (e : Expr) (v : Val),
+/-- known finding `tuple-slice-nonliteral-bounds` (what is left of it after da8b916): only literal — also signed — or omitted bounds
+    select elements (reflections.py:476-490); a COMPUTED bound keeps the whole tuple type: `t[0 + 1:]` of a `tuple<int, str>` is
+    typed `tuple<int, str>`, CPython computes `('a',)`. -/
+theorem tuple_slice_computed_counterexample : ∃ (Γ : Env) (ρ : VEnv) (e : Expr) (v : Val),
     EnvConf [] ρ Γ ∧ eval World.none ρ e = .ok v ∧ inferT [] Γ e = .ok (.tuple (.cons .int (.cons .str .nil))) ∧
     ¬ Conf [] v (.tuple (.cons .int (.cons .str .nil))) ∧ wt [] Γ e = false := by
   refine ⟨[(['t'], .tuple (.cons .int (.cons .str .nil)))], [(['t'], .tuple [.int 1, .str ['a']])],
-    .slice (.var ['t']) (.factor .neg (.int 1)) .empty_, .tuple [.str ['a']], ?_, by rfl, by decide +kernel, ?_, by decide +kernel⟩
+    .slice (.var ['t']) (.bin (.int 0) (.cons .add (.int 1) .nil)) .empty_, .tuple [.str ['a']], ?_, by rfl, by decide +kernel, ?_, by decide +kernel⟩
   · intro x T hx
     simp only [lookup] at hx ⊢
     split at hx
@@ -194,6 +195,24 @@ theorem tuple_slice_negative_counterexample : ∃ (Γ : Env) (ρ : VEnv) (e : Ex
     cases hvs
     have := hz.length
     simp [Tys.length] at this
+
+/-- da8b916: signed literal bounds are inside Core and select what CPython selects — `t[-1:]`, `t[:-1]`, `t[-2:-1]`, `t[+1:]`, and
+    out-of-range negative bounds (`t[-9:]` the whole tuple, `t[:-9]` and `t[-1:-2]` the empty one) (`sound_conf` covers them all) -/
+example :
+    let Γ : Env := [(['t'], .tuple (.cons .int (.cons .str (.cons .float .nil))))]
+    let sl := fun (lo hi : Expr) => Expr.slice (.var ['t']) lo hi
+    (wt [] Γ (sl (.factor .neg (.int 1)) .empty_) = true ∧ inferT [] Γ (sl (.factor .neg (.int 1)) .empty_) = .ok (.tuple (.cons .float .nil))) ∧
+    (wt [] Γ (sl .empty_ (.factor .neg (.int 1))) = true ∧ inferT [] Γ (sl .empty_ (.factor .neg (.int 1))) = .ok (.tuple (.cons .int (.cons .str .nil)))) ∧
+    inferT [] Γ (sl (.factor .neg (.int 2)) (.factor .neg (.int 1))) = .ok (.tuple (.cons .str .nil)) ∧
+    inferT [] Γ (sl (.factor .pos (.int 1)) .empty_) = .ok (.tuple (.cons .str (.cons .float .nil))) ∧
+    inferT [] Γ (sl (.factor .neg (.int 9)) .empty_) = .ok (.tuple (.cons .int (.cons .str (.cons .float .nil)))) ∧
+    inferT [] Γ (sl .empty_ (.factor .neg (.int 9))) = .ok (.tuple .nil) ∧
+    inferT [] Γ (sl (.factor .neg (.int 1)) (.factor .neg (.int 2))) = .ok (.tuple .nil) ∧
+    (eval World.none [(['t'], .tuple [.int 1, .str ['a'], .float 0])] (sl (.factor .neg (.int 2)) (.factor .neg (.int 1)))).map typeOf
+      = .ok (.tuple (.cons .str .nil)) ∧
+    -- `~1`, `-(1)` and `- -1` are not literal bounds
+    wt [] Γ (sl (.factor .inv (.int 1)) .empty_) = false ∧ wt [] Γ (sl (.factor .neg (.group (.int 1))) .empty_) = false := by
+  decide +kernel
 
 /-- known finding `ternary-union-of-containers`: the two branches `[a]` and `[None]` are inferred as different list types, their
     ternary as `Union<list<int>, list<None>>`, on which no operator resolves: inference FAILS on an expression CPython evaluates. -/
